@@ -1,7 +1,7 @@
 // E-B: the engine functions that enter E-V only as assumed contracts (closure/iterator bodies) are run here, for real,
 // on every pre-state of a small scope, against the executable form of those contracts and of wf().
 //   scope: <= N user operations from {QoS0/1/2 publish, subscribe, unsubscribe} x every progress script of <= L steps from
-//   {service(big buffer), service(6-byte buffer), write completion, broker acks everything, broker acks one} x 4 offline policies
+//   {service(big buffer), service(5-byte buffer), write completion, broker acks everything, broker acks one} x 4 offline policies
 //   x 2 drain policies x {MQTT5, 3.1.1} x retry limit {None, 0, 1} x session {present, absent} on reconnect.
 use super::harness::*;
 use crate::client::config::*;
@@ -10,7 +10,7 @@ use crate::protocol::*;
 use std::collections::{HashMap, HashSet, VecDeque};
 
 #[derive(Copy, Clone, Debug, PartialEq, Eq)]
-pub(crate) enum Act { SvcBig, SvcTiny, Wc, AckAll, AckOne }
+pub(crate) enum Act { SvcBig, SvcTiny, Wc, AckAll, AckOne, Flush }
 pub(crate) const ACTS: [Act; 5] = [Act::SvcBig, Act::SvcTiny, Act::Wc, Act::AckAll, Act::AckOne];
 
 fn topic_of(p: &MqttPacket) -> Option<String> {
@@ -72,10 +72,11 @@ impl Runner {
     fn act(&mut self, a: Act) -> Result<(), String> {
         match a {
             Act::SvcBig => { let r = self.h.service(4096); self.step(r, "service(4096)") }
-            Act::SvcTiny => { let r = self.h.service(6); self.step(r, "service(6)") }
+            Act::SvcTiny => { let r = self.h.service(5); self.step(r, "service(5)") }
             Act::Wc => { if self.h.ps.pending_write_completion { let r = self.h.write_completion(); self.step(r, "write completion") } else { Ok(()) } }
             Act::AckAll => self.ack(true),
             Act::AckOne => self.ack(false),
+            Act::Flush => { self.act(Act::SvcBig)?; self.act(Act::Wc) }
         }
     }
 }
@@ -98,25 +99,15 @@ fn position(h: &H, tag: u64) -> Pos {
 
 fn count_in(q: &VecDeque<u64>, id: u64) -> usize { q.iter().filter(|x| **x == id).count() }
 
-pub(crate) fn run_scenario(cfg: &Cfg, ops: &[Kind], script: &[Act], session_present: bool, rm: Option<u16>) -> Result<(), String> {
-    let mut r = Runner { h: H::new(cfg.clone()), acked_upto: 0, what: String::new() };
-    let x = r.h.open(); r.step(x, "open")?;
-    let x = r.h.service(4096); r.step(x, "service CONNECT")?;
-    let x = r.h.write_completion(); r.step(x, "wc CONNECT")?;
-    let x = r.h.connack(false, rm); r.step(x, "connack")?;
-    r.acked_upto = r.h.sent_this_connection.len();
-    if !matches!(r.h.sent_this_connection.first().map(|p| &**p), Some(MqttPacket::Connect(_))) || r.h.sent_this_connection.len() != 1 {
-        return Err("C07 first connection: the bytes before CONNACK are not exactly one CONNECT".into());
-    }
-    let mut tags = Vec::new();
-    for k in ops { tags.push((r.h.submit(*k), *k)); let ok = r.h.check_wf(); ok.map_err(|e| format!("wf broken after submit: {}", e))?; }
-    for a in script { r.act(*a)?; }
 
-    // ---------------------------------------------------------------- contract of handle_network_event_connection_closed
+/// contract of handle_network_event_connection_closed, evaluated around a real close()
+fn check_close(r: &mut Runner, tags: &[(u64, Kind)], cfg: &Cfg, first_connection: bool) -> Result<(), String> {
     let before: Vec<(u64, Kind, Pos, Option<u64>, bool, bool)> = tags.iter().map(|(t, k)| {
         let id = find_op(&r.h, *t);
         let (dup, rel) = id.and_then(|i| r.h.ps.operations.get(&i)).map(|op| (matches!(&*op.packet, MqttPacket::Publish(p) if p.duplicate), op.qos2_pubrel.is_some())).unwrap_or((false, false));
         (*t, *k, position(&r.h, *t), id, dup, rel) }).collect();
+    let interruptions_before: HashMap<u64, u32> = r.h.ps.operations.iter().map(|(k, op)| (*k, op.interruption_count)).collect();
+    let in_pending_before: HashSet<u64> = before.iter().filter(|b| b.3.map(|id| r.h.ps.pending_publish_operations.values().any(|v| *v == id) || r.h.ps.pending_non_publish_operations.values().any(|v| *v == id)).unwrap_or(false)).map(|b| b.0).collect();
     let bound_before: HashMap<u64, Option<u16>> = before.iter().filter_map(|b| b.3.map(|id| (b.0, r.h.ps.operations.get(&id).and_then(|op| op_packet_id(op))))).collect();
     let x = r.h.close(); r.step(x, "connection closed")?;
     {
@@ -141,7 +132,9 @@ pub(crate) fn run_scenario(cfg: &Cfg, ops: &[Kind], script: &[Act], session_pres
         }
         let keeps = policy_keeps(*kind, cfg.policy);
         let sent_unacked = *pos == Pos::PendingAck || (*pos == Pos::HighPriority && *rel) || (*pos == Pos::Current && *rel);
-        let over_retry = sent_unacked && matches!(cfg.retries, Some(n) if 1 > n);
+        let sent_unacked_for_retry = in_pending_before.contains(tag);
+        let prior = interruptions_before.get(&id).copied().unwrap_or(0);
+        let over_retry = sent_unacked_for_retry && matches!(cfg.retries, Some(n) if prior + 1 > n);
         let expect_err: Option<&str> =
             if over_retry { Some("MaxInterruptedRetriesExceeded") }
             else if matches!(kind, Kind::Pub1 | Kind::Pub2) && (sent_unacked || *dup) { None }       // in-flight QoS1+ retained whatever the policy (C15 exception)
@@ -160,6 +153,25 @@ pub(crate) fn run_scenario(cfg: &Cfg, ops: &[Kind], script: &[Act], session_pres
             (exp, got) => return Err(format!("C15/C18 close: tag {} ({:?},{:?},policy {:?},retries {:?}) expected {:?} got {:?}", tag, kind, pos, cfg.policy, cfg.retries, exp, got)),
         }
     }
+
+    Ok(())
+}
+
+pub(crate) fn run_scenario(cfg: &Cfg, ops: &[Kind], script: &[Act], session_present: bool, rm: Option<u16>, script2: &[Act]) -> Result<(), String> {
+    let mut r = Runner { h: H::new(cfg.clone()), acked_upto: 0, what: String::new() };
+    let x = r.h.open(); r.step(x, "open")?;
+    let x = r.h.service(4096); r.step(x, "service CONNECT")?;
+    let x = r.h.write_completion(); r.step(x, "wc CONNECT")?;
+    let x = r.h.connack(false, rm); r.step(x, "connack")?;
+    r.acked_upto = r.h.sent_this_connection.len();
+    if !matches!(r.h.sent_this_connection.first().map(|p| &**p), Some(MqttPacket::Connect(_))) || r.h.sent_this_connection.len() != 1 {
+        return Err("C07 first connection: the bytes before CONNACK are not exactly one CONNECT".into());
+    }
+    let mut tags = Vec::new();
+    for k in ops { tags.push((r.h.submit(*k), *k)); let ok = r.h.check_wf(); ok.map_err(|e| format!("wf broken after submit: {}", e))?; }
+    for a in script { r.act(*a)?; }
+
+    check_close(&mut r, &tags, cfg, true)?;
 
     // ---------------------------------------------------------------- contract of apply_session_present_to_connection (via CONNACK)
     let resubmit_before: Vec<u64> = r.h.ps.resubmit_operation_queue.iter().copied().collect();
@@ -193,6 +205,21 @@ pub(crate) fn run_scenario(cfg: &Cfg, ops: &[Kind], script: &[Act], session_pres
         for id in s.resubmit_operation_queue.iter() {
             let op = s.operations.get(id).ok_or("resubmit queue holds an untracked id")?;
             if op_packet_id(op).is_none() || !matches!(&*op.packet, MqttPacket::Publish(p) if p.duplicate) { return Err(format!("C04 connack(session): retransmission {} lost id or DUP", id)); }
+        }
+    }
+
+    // ---------------------------------------------------------------- optional second interruption (retransmissions, re-sent PUBRELs)
+    if !script2.is_empty() {
+        for a in script2 { r.act(*a)?; }
+        check_close(&mut r, &tags, cfg, false)?;
+        let x = r.h.open(); r.step(x, "reopen 3")?;
+        let x = r.h.service(4096); r.step(x, "service CONNECT 3")?;
+        let x = r.h.write_completion(); r.step(x, "wc CONNECT 3")?;
+        let x = r.h.connack(session_present, rm); r.step(x, "connack 3")?;
+        r.acked_upto = r.h.sent_this_connection.len();
+        for q in [&r.h.ps.user_operation_queue, &r.h.ps.resubmit_operation_queue] {
+            let mut seen = HashSet::new();
+            for id in q.iter() { if !seen.insert(*id) { return Err(format!("C04/C01 operation {} queued twice after the second reconnect", id)); } }
         }
     }
 
@@ -288,13 +315,26 @@ fn engine_closed_connack_reset_contracts() {
         let cfg = Cfg { policy, drain, mode, retries: *retry, keep_alive: None, ack_timeout: None };
         for ops in &op_seqs { for script in &scripts {
             cases += 1;
-            if let Err(e) = run_scenario(&cfg, ops, script, session, rm) {
+            if let Err(e) = run_scenario(&cfg, ops, script, session, rm, &[]) {
                 if failures.len() < 40 {
                     failures.push(format!("policy={:?} drain={:?} mode={:?} retries={:?} session_present={} ops={:?} script={:?} :: {}", policy, drain, mode, retry, session, ops, script, e));
                 }
             }
         } }
     } } } } }
+    // second interruption cycle: one operation, first script <= 2, second script <= 3 (thorough: 2 operations, scripts <= 3)
+    let ops2 = sequences(&KINDS, if thorough { 2 } else { 1 }, 1);
+    let s1 = sequences(&ACTS, if thorough { 3 } else { 2 }, 0);
+    let s2 = sequences(&[Act::Flush, Act::SvcTiny, Act::AckAll, Act::AckOne, Act::Wc], 3, 1);
+    for policy in [OfflineQueuePolicy::PreserveAll, OfflineQueuePolicy::PreserveNothing] { for session in [false, true] { for retry in [None, Some(1u32)] {
+        let cfg = Cfg { policy, drain: PostReconnectQueueDrainPolicy::None, mode: ProtocolMode::Mqtt5, retries: retry, keep_alive: None, ack_timeout: None };
+        for ops in &ops2 { for a in &s1 { for b in &s2 {
+            cases += 1;
+            if let Err(e) = run_scenario(&cfg, ops, a, session, None, b) {
+                if failures.len() < 40 { failures.push(format!("policy={:?} retries={:?} session_present={} ops={:?} script={:?} second_script={:?} :: {}", policy, retry, session, ops, a, b, e)); }
+            }
+        } } }
+    } } }
     println!("BOUNDED engine_closed_connack_reset_contracts cases={} bound=ops<={} script<={} x4 policies x2 drain x2 versions x{} retry limits x2 session", cases, n_ops, n_script, retries.len());
     for f in &failures { println!("BOUNDED-FAIL engine_closed_connack_reset_contracts {}", f); }
     assert!(failures.is_empty(), "{} failing scenarios", failures.len());
